@@ -205,7 +205,9 @@ func (s *pSuite) posInt(edgeBias int) sdkmath.Int {
 }
 
 var pDenoms = []string{"stake", "acanto", "ausdc", "abtc", "ibc/ETH", "zjunk", "Upper", "a.b_c-d:e/f"}
-var pBadDenoms = []string{"", " ", "ab", "1abc", "bad!denom", "a b c", "é-accent", strings.Repeat("a", 129)}
+var pBadDenoms = []string{"", " ", "ab", "1abc", "bad!denom", "a b c", "é-accent", strings.Repeat("a", 129),
+	// a valid denomination with white space around it is not a valid denomination
+	" acanto", "acanto ", "\tacanto", "acanto\n", " acoina "}
 var pEdgeDenoms = []string{"abc", strings.Repeat("a", 128), "A23"}
 
 func (s *pSuite) denom(badBias int) string {
